@@ -34,6 +34,13 @@ var axiomGroups = map[string]axiomGroup{
 		text: `(assert (forall ((a Str) (b Str)) (! (= (slen (sconcat a b)) (+ (slen a) (slen b))) :pattern ((sconcat a b)))))
 (assert (forall ((a Str) (b Str) (i Int)) (! (=> (and (<= 0 i) (< i (+ (slen a) (slen b)))) (= (select (sbytes (sconcat a b)) i) (ite (< i (slen a)) (select (sbytes a) i) (select (sbytes b) (- i (slen a)))))) :pattern ((select (sbytes (sconcat a b)) i)))))
 `},
+	"strjoin": {
+		deps:  []string{"substr", "concat"},
+		needs: []Decl{{"charStr", []*Sort{IntSort}, StrSort}},
+		text: `(assert (forall ((s Str) (a Int) (b Int) (c Int)) (! (=> (and (<= 0 a) (<= a b) (<= b c) (<= c (slen s))) (= (sconcat (substr s a b) (substr s b c)) (substr s a c))) :pattern ((sconcat (substr s a b) (substr s b c))))))
+(assert (forall ((s Str) (i Int)) (! (=> (and (<= 0 i) (< i (slen s))) (= (substr s i (+ i 1)) (charStr (select (sbytes s) i)))) :pattern ((substr s i (+ i 1))))))
+(assert (forall ((c Int)) (! (and (= (slen (charStr c)) 1) (=> (and (<= 0 c) (<= c 255)) (= (select (sbytes (charStr c)) 0) c))) :pattern ((charStr c)))))
+`},
 	"strcmp": {
 		deps:  []string{"str"},
 		needs: []Decl{{"strcmp", []*Sort{StrSort, StrSort}, IntSort}},
@@ -47,10 +54,11 @@ var axiomGroups = map[string]axiomGroup{
 (assert (forall ((s Str) (p Str)) (! (= (hasSuffix s p) (and (>= (slen s) (slen p)) (= (substr s (- (slen s) (slen p)) (slen s)) p))) :pattern ((hasSuffix s p)))))
 `},
 	"indexbyte": {
-		deps:  []string{"str"},
+		deps:  []string{"str", "substr"},
 		needs: []Decl{{"indexByte", []*Sort{StrSort, IntSort}, IntSort}, {"lastIndexByte", []*Sort{StrSort, IntSort}, IntSort}},
 		text: `(assert (forall ((s Str) (c Int)) (! (and (<= (- 1) (indexByte s c)) (< (indexByte s c) (slen s)) (=> (>= (indexByte s c) 0) (= (select (sbytes s) (indexByte s c)) c))) :pattern ((indexByte s c)))))
 (assert (forall ((s Str) (c Int) (j Int)) (! (=> (and (<= 0 j) (< j (slen s)) (= (select (sbytes s) j) c)) (and (<= 0 (indexByte s c)) (<= (indexByte s c) j))) :pattern ((indexByte s c) (select (sbytes s) j)))))
+(assert (forall ((s Str) (c Int) (a Int)) (! (=> (and (<= 0 a) (<= a (slen s))) (and (=> (>= (indexByte (substr s a (slen s)) c) 0) (>= (indexByte s c) 0)) (=> (>= (indexByte s c) a) (= (indexByte (substr s a (slen s)) c) (- (indexByte s c) a))))) :pattern ((indexByte (substr s a (slen s)) c)))))
 (assert (forall ((s Str) (c Int)) (! (and (<= (- 1) (lastIndexByte s c)) (< (lastIndexByte s c) (slen s)) (=> (>= (lastIndexByte s c) 0) (= (select (sbytes s) (lastIndexByte s c)) c))) :pattern ((lastIndexByte s c)))))
 (assert (forall ((s Str) (c Int) (j Int)) (! (=> (and (<= 0 j) (< j (slen s)) (= (select (sbytes s) j) c)) (>= (lastIndexByte s c) j)) :pattern ((lastIndexByte s c) (select (sbytes s) j)))))
 `},
